@@ -10,7 +10,8 @@ from awesomeyaml.eval_context import EvalContext
 import gen_eval as GE
 from props.mergefam import doc_features, shrink_docs, strip_ids
 
-class Hang(Exception):
+class Hang(BaseException):
+    """watchdog expiry; a BaseException so that the library's error wrapping cannot swallow it"""
     pass
 
 def _alarm(signum, frame):
@@ -27,7 +28,7 @@ def tree_nodes(root, pre=()):
 def dyn_kind(n):
     return {CallNode: 'call', BindNode: 'bind', EvalNode: 'eval', FStrNode: 'fstr', ImportNode: 'import', XRefNode: 'xref'}.get(type(n))
 
-def run_case(docs, world, style=('flow', 0, 0), timeout=20, extra=None):
+def run_case(docs, world, style=('flow', 0, 0), timeout=5, extra=None):
     """full observation of one build: merged-tree facts, evaluated value JSON, attributed execution log"""
     obs = {}
     old = signal.signal(signal.SIGALRM, _alarm)
@@ -106,3 +107,35 @@ class EvalFamProp(Prop):
 
     def nontrivial(self, case, io):
         return any(n['kind'] not in ('scalar', 'comp') for n in io.get('nodes', []))
+
+
+def doc_safety(docs):
+    """per stage: {path string: unsafe?} derived from the documents alone (source flag, !unsafe on the node or an ancestor)"""
+    out = []
+    for d in docs:
+        m = {}
+        def walk(n, path, unsafe):
+            unsafe = unsafe or (n.get('kw') or {}).get('safe') is False
+            m[NodePath.join_path(list(path))] = unsafe
+            if 'm' in n:
+                for k, c in n['m']:
+                    walk(c, path + (sc_py(k),), unsafe)
+            elif 'q' in n:
+                for i, c in enumerate(n['q']):
+                    walk(c, path + (i,), unsafe)
+        walk(d['raw'], (), d.get('safe') is False)
+        out.append(m)
+    return out
+
+def doc_scalar_contexts(docs):
+    """(set of scalar values written in unsafe context, set written in safe context)"""
+    uns, saf = set(), set()
+    for d in docs:
+        def walk(n, unsafe):
+            unsafe = unsafe or (n.get('kw') or {}).get('safe') is False
+            if 's' in n and 'l' in n['s']:
+                (uns if unsafe else saf).add(json.dumps(n['s']['l']))
+            for c in n.get('q', []): walk(c, unsafe)
+            for _, c in n.get('m', []): walk(c, unsafe)
+        walk(d['raw'], d.get('safe') is False)
+    return uns, saf
